@@ -188,6 +188,26 @@ def check_desc(case, ctx):
     d1 = roundtrip(m, ctx, case, path)
     if d1:
         reparse_exports(d1, ctx, case)
+    if isinstance(case.get('id'), int) and case['id'] % 3 == 0:
+        # the export of a copy / unpickled model is the same model
+        import copy
+        import dill
+        for label, mk in (('deepcopy', copy.deepcopy),
+                          ('dill', lambda x: dill.loads(dill.dumps(x)))):
+            try:
+                m2 = mk(m)
+                d2 = m2.to_dict()
+            except Exception as ex:
+                ctx.violation('copy-export-raised:%s:%s' % (label, type(ex).__name__), {
+                    'case': case, 'observed': repr(ex)[:150], 'accepted': ['the same export']})
+                continue
+            ctx.count('monitor.copy-export')
+            if d1 is not None and d2 != d1:
+                keys = sorted(k for k in set(d1) | set(d2) if d1.get(k) != d2.get(k))
+                ctx.violation('copy-export-differs:%s:%s' % (label, _value_class(d1.get(keys[0]))), {
+                    'case': case, 'node': keys[0], 'n_keys': len(keys),
+                    'observed': _short(d2.get(keys[0], '<absent>')),
+                    'accepted': [_short(d1.get(keys[0], '<absent>'))]})
 
 
 def hostile_book(rng, dirpath, sheet_names):
@@ -217,6 +237,11 @@ def hostile_book(rng, dirpath, sheet_names):
             cells[(sn, row)] = (kind, txt)
             row += 1
         ws.cell(row=row, column=1).value = 5
+        # unresolved items: a missing sheet and an unloadable workbook
+        ws.cell(row=row, column=6).value = '=Gone!A1+1'
+        ws.cell(row=row, column=7).value = "='[nofile9.xlsx]S'!B2*2"
+        ws.cell(row=row, column=8).value = '=IF(ISERROR(Gone!A1),"broken","fine")'
+        ws.cell(row=row, column=9).value = '=IFERROR(F%d,"caught")' % row
         ws.cell(row=row, column=2).value = '=A%d*2' % row
         ws.cell(row=row + 1, column=2).value = '=ISBLANK(A%d)' % (row + 3)
     path = os.path.join(dirpath, 'h.xlsx')
